@@ -435,6 +435,33 @@ def sdes_many_chunks(r):
     return out
 
 
+def sdes_big_chunks(r):
+    """well-formed SDES packets whose single chunk is as long as 16 bits can say, one word less, one
+    word more, and near the packet limit (a chunk has no length field: its length is what the
+    tokenisation finds, `SdesChunk::length()` must report it whatever its size); and chunks of
+    65535 / 65536 / 65537 ITEMS (empty values)"""
+    out = []
+    def chunk_of(total):
+        # 4 (ssrc) + k items of 257 octets + one item that decides the total + terminator/fill
+        k = (total - 4 - 4) // 257
+        body = struct.pack(">I", 0x01020304) + b"".join(bytes([1, 255]) + bytes([0x61 + i % 26]) * 255 for i in range(k))
+        rest = total - len(body) - 1          # octets left for the deciding item (2 + value), before >= 1 terminator
+        v = max(0, min(255, rest - 2))
+        body += bytes([2, v]) + b"y" * v
+        body += bytes(total - len(body))
+        return body
+    for total in (65532, 65536, 65540, 65800, 131072, 262136):
+        b = chunk_of(total)
+        assert len(b) == total and total % 4 == 0
+        out.append(P("sdes", gen.hdr(202, 1, 4 + total) + b))
+        out.append(P("packet", gen.hdr(202, 1, 4 + total) + b))
+    for n in (65535, 65536, 65537):
+        body = struct.pack(">I", 7) + bytes([1, 0]) * n
+        body += bytes(4 - len(body) % 4)
+        out.append(P("sdes", gen.hdr(202, 1, 4 + len(body)) + body))
+    return out
+
+
 def sdes_priv_utf8(r):
     """PRIV items whose prefix-length octet cuts a multi-byte UTF-8 character of prefix+value in two"""
     out = []
@@ -721,6 +748,11 @@ def boundary_cfgs(kind, r, tier):
             if 0 <= e <= 255:
                 out.append({"k": "sdes", "padding": p_, "_big": True, "_light": True, "chunks": [
                     {"k": "chunk", "ssrc": 1, "items": base_items + [{"type": 2, "value": b"y" * e}]}]})
+        # one chunk of 65535 / 65536 / 65537 ITEMS (a packet may hold 131069 empty items: nothing in the
+        # format counts them, so nothing may count them in 16 bits), really written and parsed back
+        for n_items in (65535, 65536, 65537):
+            out.append({"k": "sdes", "padding": 0, "_big": True, "_light": True, "_many_items": True, "chunks": [
+                {"k": "chunk", "ssrc": 7, "items": [{"type": 1 + i % 7, "value": b""} for i in range(n_items)]}]})
         # total size around the limit: 1028 items of 255 bytes = 264196
         big_items = [{"type": 1, "value": b"z" * 255} for _ in range(1019)]
         for extra in (0, 145, 146, 147, 148, 149, 150, 151, 152, 153, 200):
@@ -816,6 +848,14 @@ def boundary_cfgs(kind, r, tier):
                 {"k": "rr", "ssrc": 1, "padding": 0, "rbs": []}, dict(half), dict(half),
                 {"k": "unknown", "type": 192, "data": bytes(extra), "padding": 0, "count": 1},
                 {"k": "bye", "padding": 0, "sources": [7], "reason": None}]})
+        # a NESTED compound around and beyond 65536 words: the 16-bit length field limits a packet,
+        # a compound (nested or not) is a concatenation of packets and has no limit of its own
+        for extra in (131052, 131056, 131060, 200000):
+            big = {"k": "unknown", "type": 207, "data": bytes(extra), "padding": 0, "count": 0}
+            half = {"k": "unknown", "type": 207, "data": bytes(131060), "padding": 0, "count": 0}
+            inner = {"k": "compound", "members": [dict(half), dict(big), {"k": "bye", "padding": 0, "sources": [7], "reason": None}]}
+            out.append({"k": "compound", "_big": True, "members": [{"k": "rr", "ssrc": 1, "padding": 0, "rbs": []}, inner]})
+            out.append({"k": "compound", "_big": True, "members": [inner, {"k": "rr", "ssrc": 1, "padding": 4, "rbs": []}]})
         # long member lists: padding on a member at every position around 64
         for n in (63, 64, 65, 66, 67, 70, 130):
             for padpos in sorted({n - 1, 62, 63, 64, 65, n - 2} & set(range(n))):
